@@ -923,7 +923,7 @@ impl IndexData {
         match self {
             IndexData::I18NString(s) => {
                 // @todo: an actual implementation that doesn't just get the first string from the table
-                Some(&s[0])
+                s.first().map(|s| s.as_str())
             }
             _ => None,
         }
